@@ -58,6 +58,7 @@ type detGen struct {
 	r   *Rand
 	n   int
 	out []*Node
+	big bool // the program contains a large reduction: keep scheduling coarse
 }
 
 func (g *detGen) sym(p string) string { g.n++; return fmt.Sprintf("%s%d", p, g.n) }
@@ -205,7 +206,33 @@ func (g *detGen) observe(v *Node) *Node {
 }
 
 func (g *detGen) form() *Node {
-	switch g.r.Pick([]int{10, 3, 2, 2, 2, 2, 1, 2, 3, 2, 2, 2}) {
+	switch g.r.Pick([]int{10, 3, 2, 2, 2, 2, 1, 2, 3, 2, 2, 2, 3, 3, 1}) {
+	case 12:
+		// expr lambdas with numbered placeholders (their formals are built at evaluation time)
+		k := g.r.Range(1, 6)
+		body := []*Node{A("list")}
+		args := []*Node{}
+		for i := k; i >= 1; i-- {
+			body = append(body, A(fmt.Sprintf("%%%d", i)))
+			args = append(args, g.scalar())
+		}
+		return L(append([]*Node{A("funcall"), Call("expr", L(body...))}, args...)...)
+	case 13:
+		// schema validation failing for several reasons at once
+		ty := g.sym("ty")
+		cons := PickNode(g.r,
+			Call("s:no-other-keys", Str("k01"), Str("k02")),
+			Call("s:has-key", Str("zz1"), A("s:int")),
+			Call("s:no-other-keys"))
+		g.out = append(g.out, Call("s:deftype", Str(ty), A("s:sorted-map"), cons, Call("s:has-key", Str("zz2"), A("s:string")), Call("s:has-key", Str("zz0"), A("s:int"))))
+		return Call("s:validate", A(ty), g.mapExpr(0))
+	case 14:
+		// a large numeric reduction (any parallel or chunked fast path would show here)
+		n := 16384 + g.r.Range(1, 3000)
+		g.big = true
+		return Call("list",
+			Call("apply", A("+"), Call("map", QS("list"), L(A("lambda"), L(A("i")), Call("*", A("0.1"), A("i"))), Call("make-sequence", I(0), I(n)))),
+			Call("apply", A("*"), Call("map", QS("list"), L(A("lambda"), L(A("i")), Call("+", A("1.0"), Call("/", A("1.0"), Call("+", A("i"), I(1))))), Call("make-sequence", I(0), I(n)))))
 	case 7:
 		// a call that the argument binder refuses for several reasons at once
 		f := g.sym("kf")
@@ -317,6 +344,10 @@ func (e *detEngine) Gen(r *Rand, tier string) any {
 		c.Sched = append(c.Sched, r.Intn(3))
 	}
 	c.Burst = r.Range(1, 40)
+	if g.big || gn.big {
+		c.Burst = r.Range(2000, 6000)
+		c.Chunks = []int{r.Range(16, 64)}
+	}
 	if r.Chance(1, 8) {
 		c.Clock = true
 		c.Forms = append([]*Node{
